@@ -24,6 +24,7 @@ from harness.props import c19_pca as PC
 from harness.props import c19_img as IM
 from harness.props import c19_registry as RG
 from harness.props import c19_source as SRC
+from harness.props import c19_expr as EXP
 from harness.util import Snapshot, all_close, cmp_rats, errname, fr, frs, parse_rats
 
 SCHEDS = ["st_01234", "st_43210", "st_02413", "st_13024", "st_42031", "st_odd0_even1",
@@ -99,14 +100,16 @@ flood_components = MK.flood_components
 class C19(PropertyCheck):
     id = "C19"
     title = "Array-level analyses respect axis conventions and their decompositions"
-    lean_modules = ["NipyVerif.Props.C19", "NipyVerif.Props.C19B", "NipyVerif.Props.C19C", "NipyVerif.Props.C19D"]
+    lean_modules = ["NipyVerif.Props.C19", "NipyVerif.Props.C19B", "NipyVerif.Props.C19C", "NipyVerif.Props.C19D",
+                    "NipyVerif.Props.C19E", "NipyVerif.Props.C19F"]
     driver = "Drivers/C19.lean"
     rule = ("slice schedules: every n in 1..200 for all 8 schedules and their aliases, and every key of the live "
             "SLICETIME_FUNCTIONS against the table regenerated from timefuncs.py; slice times as consumed by "
             "SpaceTimeRealign / FmriRealign4d (str / short / alias / callable / array, slice_info int or (axis, +-1)); "
             "time_slice_diffs: the complete (ndim 2..5) x (time axis, negative included) x (slice axis or None) "
             "table on seeded arrays of float64 / float32 / uint8 / int8 / int16 / uint16 / int32 in C / Fortran / "
-            "reversed / list layouts, out-of-range axes, named image axes, screens.screen; pca: seeded arrays of "
+            "reversed / strided / big-endian / read-only / list layouts, magnitudes 2**-20 .. 2**40, two further calls "
+            "on the same array (earlier result unchanged, repeated call equal), out-of-range axes, named image axes, screens.screen; pca: seeded arrays of "
             "2..5 dims (float64 / float32 / int8 / int16 / int32 / uint8 / uint16; C / Fortran / strided / "
             "negative-stride / read-only / list), every axis, ncomp in {None, 0, 1, 2, T-1, T, T+3, -1}, standardize, "
             "design_keep (full / narrow / rank-deficient), design_resid ('mean' / None / linear / rank-deficient / "
@@ -161,6 +164,17 @@ class C19(PropertyCheck):
         "percent scale, back-roll offset, default slice axis, screen's positional guess, parse_fname_axes "
         "defaults, plot x-limits, signature defaults) and raises TieBroken otherwise; theorems source_* state "
         "that the regenerated definitions are the model's",
+        "c19_expr.py translates the bodies of compute_mask, largest_cc, threshold_connect_components, intersect_masks "
+        "(whole; file-name plumbing skipped; the cap `1 - 1.e-7` folded in double precision), the axis "
+        "prologue / back-rolls / loop expressions of time_slice_diffs and the project_resid / X / ncomp / axis "
+        "statements of pca statement by statement into Lean terms over the numpy leaves of Model/C19E.lean "
+        "(TieBroken on any name, operator or call outside its table); ndimage.label, npl.pinv, "
+        "ndimage.binary_opening and largest_cc inside compute_mask are named leaves (parameters); theorems "
+        "*_as_modelled (Props/C19E, C19F) prove the generated terms equal to the model's definitions, under the "
+        "contract of ndimage.label (largest label = label_nb, labels of the map's size) where bincount's length "
+        "matters; `int(math.floor(m * n))` is translated for m, M >= 0 only (negative fractions would be Python's "
+        "from-the-end slice bounds) and `a - b` of the two gap slices for equal lengths only (numpy would broadcast "
+        "a length-1 slice: M = 1 with two values left is outside the model)",
         "the axis tables (time_slice_diffs, pca, output shapes, pca_image names) are proved for arrays / images "
         "of 2..5 dimensions (the property's quantifier), not for arbitrary ndim",
     ]
@@ -170,7 +184,14 @@ class C19(PropertyCheck):
                   "connected-component labelling, morphological opening and Gaussian smoothing remain "
                   "parameters or oracle-only; 'each position exactly once' is proved for slice_generator over one "
                   "axis (positions and values, 2..5 dims), for the index tuples of multi-axis slice_generator, for "
-                  "write_data o data_generator and for parcels / slice_parcels, not for the values of multi-axis slices")
+                  "write_data o data_generator and for parcels / slice_parcels, not for the values of multi-axis slices; "
+                  "wave 5: the bodies of compute_mask / largest_cc / intersect_masks / threshold_connect_components (incl. "
+                  "their loops, by loop invariants), the axis prologue and loop expressions of time_slice_diffs and the "
+                  "projector statements of pca are regenerated from the source text as Lean terms and proved equal to "
+                  "the model (an edited comparison / index / constant breaks a proof obligation); the generated terms "
+                  "are also run by the driver (x-lines) against the real code; the accumulation loop of "
+                  "time_slice_diffs as a whole, _get_covariance / _get_basis_projections and pca_image's body are "
+                  "still tied by correspondence only")
     finding_keys = {
         "C19-intersect-nonbinary": "intersect_masks sums mask values (first mask truncated to int) instead of "
                                    "counting memberships",
@@ -188,8 +209,9 @@ class C19(PropertyCheck):
     def translators(self):
         """nipy/algorithms/slicetiming/timefuncs.py -> lean/NipyVerif/Gen/C19Registry.lean;
         formula-like lines of pca.py / timediff.py / screens.py / commands.py / tsdiffplot.py ->
-        lean/NipyVerif/Gen/C19Source.lean"""
-        return RG.translate(REPO, TieBroken) + SRC.translate(REPO, TieBroken)
+        lean/NipyVerif/Gen/C19Source.lean; function bodies of mask.py / timediff.py / pca.py as Lean terms ->
+        lean/NipyVerif/Gen/C19Expr.lean (harness/props/c19_expr.py)"""
+        return RG.translate(REPO, TieBroken) + SRC.translate(REPO, TieBroken) + EXP.translate(REPO, TieBroken)
 
     # ------------------------------------------------------------------ generation
     def generate(self, rng, tier):
@@ -214,7 +236,9 @@ class C19(PropertyCheck):
                         shape[ta % nd] = rng.choice([2, 3, 4, 5])
                         cases.append({"kind": "tsd", "shape": shape, "seed": rng.randrange(1 << 30),
                                       "ta": ta, "sa": sa, "frac": rng.random() < 0.2,
-                                      "dtype": rng.choice(TSD_DTYPES), "layout": rng.choice(["C", "C", "F", "rev", "list"])})
+                                      "dtype": rng.choice(TSD_DTYPES),
+                                      "layout": rng.choice(["C", "C", "F", "rev", "list", "strided", "be", "ro"]),
+                                      "scale": rng.choice([0, 0, 0, 20, 40, -20])})
         for _ in range(30 if quick else 300):   # out-of-range axes
             nd = rng.choice([2, 3, 4])
             shape = [rng.choice([2, 3]) for _ in range(nd)]
@@ -287,7 +311,32 @@ class C19(PropertyCheck):
     def run_case(self, case):
         warnings.filterwarnings("ignore")
         np.seterr(all="ignore")
-        return getattr(self, "_" + case["kind"])(case)
+        return self._with_source_lines(getattr(self, "_" + case["kind"])(case))
+
+    # the functions regenerated from the source text (Gen/C19Expr.lean) are run on the same lines as the model
+    # (`x` + line kind) and compared with the same observation of the real code
+    XKINDS = ("largestcc", "threshcc", "computemask", "tsd", "intersectb")
+
+    @staticmethod
+    def _with_source_lines(res):
+        lines, impl = res.get("lines"), res.get("impl")
+        if not lines or impl is None or len(lines) != len(impl):
+            return res
+        xl, xi = [], []
+        for ln, ob in zip(lines, impl):
+            head, _, rest = ln.partition(" ")
+            if head not in C19.XKINDS:
+                continue
+            if head == "threshcc" and int(rest.split(" ", 1)[0]) > 64:
+                continue      # the enumerate loop as written is O(components x voxels)
+            xl.append("x" + ln)
+            xi.append(ob)
+        if xl:
+            res = dict(res)
+            res["lines"] = list(lines) + xl
+            res["impl"] = list(impl) + xi
+            res["tags"] = list(res.get("tags", [])) + sorted({"source-" + l.split(" ", 1)[0][1:] for l in xl})
+        return res
 
     # ---- slice timing
     def _st(self, c):
@@ -368,11 +417,22 @@ class C19(PropertyCheck):
             if c.get("frac"):
                 a = a / 4 + 0.5
             a = a.astype(dt)   # small dyadic values: exact in float32 as well
+        if c.get("scale") and a.dtype.kind == "f":
+            a = (a * 2.0 ** c["scale"]).astype(dt)   # power-of-two magnitudes: every operation stays exact
         lay = c.get("layout", "C")
         if lay == "F":
             a = np.asfortranarray(a)
         elif lay == "rev":
             a = a[::-1].copy()[::-1]
+        elif lay == "strided":                       # every second element of a larger buffer
+            big = np.full(tuple(a.shape[:-1]) + (2 * a.shape[-1],), 99, dtype=a.dtype)
+            big[..., ::2] = a
+            a = big[..., ::2]
+        elif lay == "be":                            # non-native byte order
+            a = a.astype(a.dtype.newbyteorder(">"))
+        elif lay == "ro":
+            a = a.copy()
+            a.setflags(write=False)
         af = np.asarray(a, dtype=float)
         nd, ta, sa = a.ndim, c["ta"], c["sa"]
         line = f"tsd {vview(af)} {ta} {'none' if sa is None else sa}"
@@ -436,6 +496,28 @@ class C19(PropertyCheck):
                 mv[s] = d[t, s]
             if not np.allclose(r["slice_diff2_max_vol"], mv.transpose(volperm), rtol=rt, atol=rt):
                 fail = fail or "slice_diff2_max_vol is not, per slice, the squared-difference slice of largest mean"
+        if fail is None and valid and tan != san:
+            # history on one object: a later call with other axes, then the same call again — the earlier
+            # result is a value (unchanged), the repeated call returns the same numbers
+            keep = {k: np.array(v, copy=True) for k, v in r.items()}
+            others = [(t2, s2) for t2 in range(nd) for s2 in range(nd) if t2 != s2 and (t2, s2) != (tan, san)
+                      and a.shape[t2] >= 2]
+            if others:
+                t2, s2 = others[c["seed"] % len(others)]
+                time_slice_diffs(arg, t2, s2)
+                tags.append("tsd-history")
+            r3 = time_slice_diffs(arg, ta, sa)
+            for k in keep:
+                if not np.array_equal(r[k], keep[k], equal_nan=True):
+                    fail = fail or f"time_slice_diffs: {k} of an earlier call was changed by a later call on the same array"
+                elif not np.array_equal(r3[k], keep[k], equal_nan=True):
+                    fail = fail or f"time_slice_diffs: {k} differs between two identical calls on the same array"
+            if snap.changed():
+                mut = snap.changed()
+        if lay != "C":
+            tags.append("tsd-layout-" + lay)
+        if c.get("scale") and a.dtype.kind == "f":
+            tags.append("tsd-scaled")
         return {"lines": [line], "impl": [("parts", obs, 1e-5 if dt == "float32" else 1e-10)], "oracle": fail,
                 "nontrivial": a.shape[tan] >= 2 and a.size > a.shape[tan] if valid and tan != san else False,
                 "tags": tags, "mutated": mut}
